@@ -776,7 +776,8 @@ def sec_squashed_real(ck, D):
 
     def jsup(outs, ins):
         l_, h = np.asarray(ins["lo"], float).reshape(-1), np.asarray(ins["hi"], float).reshape(-1)
-        bad = any(np.any((np.asarray(outs[nm], float).reshape(-1) < l_ - 1e-6) | (np.asarray(outs[nm], float).reshape(-1) > h + 1e-6)) for nm in ("sample", "slp_s", "mode"))
+        # exact float32 membership (low + (high - low) * s with s in [0, 1] cannot leave [low, high] under monotone rounding)
+        bad = any(np.any((np.asarray(outs[nm], float).reshape(-1) < l_) | (np.asarray(outs[nm], float).reshape(-1) > h)) for nm in ("sample", "slp_s", "mode"))
         return bad, {}
     tame = between(loc + uf_terms(it, "RAND_normal"), -1, 1) + between(sc, Fraction(3, 2), 2) + between(hi + lo, -3, 3) + [h - l_ >= 1 for h, l_ in zip(hi, lo)]
     ck.prove(f"{name}.support{tag}", asm, conj(inb), replay=judge_replay(tr, S, it.uf_apps, jsup), nonlinear=True, margin_goal=mg(tame, conj(inb)))
@@ -790,7 +791,9 @@ def sec_squashed_real(ck, D):
         m, l_, h = (np.asarray(ins[k], float).reshape(-1) for k in ("loc", "lo", "hi"))
         want = l_ + (h - l_) / (1 + np.exp(-m))
         got = np.asarray(outs["mode"], float).reshape(-1)
-        return (not np.allclose(got, want, rtol=1e-3, atol=1e-3)), {"mode": got.tolist(), "squashed_base_mode": want.tolist()}
+        # bit-level: mode() and forward(base mode) are the same float32 computation, so any difference (however small) is a different function
+        fwd = np.asarray(outs["fwd_of_base_mode"], float).reshape(-1)
+        return (not np.allclose(got, want, rtol=1e-3, atol=1e-3)) or (not np.array_equal(got, fwd)), {"mode": got.tolist(), "forward_of_base_mode": fwd.tolist(), "squashed_base_mode": want.tolist()}
     ck.prove(f"squashed.mode_fallback@{name}", asm, conj([eq_arr(out["mode"], out["fwd_of_base_mode"]), eq_arr(out["mode"], np.array(at0, dtype=object).reshape(out["mode"].shape)),
                                                             eq_arr(out["mode"], np.array(sig, dtype=object).reshape(out["mode"].shape))]),
              replay=judge_replay(tr, S, it.uf_apps, jmode), nonlinear=True,
